@@ -47,7 +47,7 @@ def _settings(rng):
     if rng.random() < 0.3:
         s["premium"] = True
     if rng.random() < 0.35:
-        s["default_bg"] = rng.choice(("black", "#222", "rgb(250, 250, 240)", "#FFFFFF", "navy"))
+        s["default_bg"] = rng.choice(("black", "#222", "rgb(250, 250, 240)", "#FFFFFF", "navy", "var(--page-bg)", "var(--page-bg, #fafafa)"))
     return s
 
 
@@ -203,9 +203,15 @@ def execute(trace):
     def bump(k, n=1):
         stats[k] = stats.get(k, 0) + n
 
+    seen_v = set()
+
     def V(kind, phase, **detail):
         f = {"kind": kind, "phase": "free" if phase == "free" else ("crash" if phase.startswith("crash") else "fault")}
         f.update(detail.pop("_features", {}))
+        key = (kind, phase, repr(detail.get("path")), detail.get("file"))
+        if key in seen_v:
+            return
+        seen_v.add(key)
         vio.append({"kind": kind, "detail": dict(detail, phase=phase), "features": f})
 
     env = trace["env"]
